@@ -119,10 +119,12 @@ def correspondence(out, env, specs, obs, name, verdict_claim=None):
     """model vs real on every case.  A mismatch is 'something that no longer checks'.  When [verdict_claim] is given
     (a sentence of the property about acceptance) and the model - whose verdict is the specified one by the theorems -
     and the implementation disagree on the exit status, the case is reported as a concrete failing input."""
-    res, err = _model.correspond(env, specs, obs)
+    live = [k for k in range(len(specs)) if "globs" in obs[k]]   # crashed / hanging cases are reported by real_sanity
+    res, err = _model.correspond(env, [specs[k] for k in live], [obs[k] for k in live])
     if res is None:
         out.broke("correspondence:%s (model evaluation failed)" % name, err)
         return None
+    res = [(live[k], d) for k, d in res]
     nb = 0
     for k, d in res:
         if verdict_claim and d.startswith("line 0:"):
@@ -140,5 +142,7 @@ def real_sanity(out, specs, obs, pid):
     for sp, ob in zip(specs, obs):
         if ob.get("panic") or ob.get("crashed"):
             out.violation("panic:" + str(sp.get("what")), "the build command panicked: %s" % (ob.get("panic") or ob.get("stderr", ""))[:300], slim(sp, ob))
+        if ob.get("hang"):
+            out.violation("hang:" + str(sp.get("what")), "the build command did not finish within %s s" % ob.get("seconds"), slim(sp, ob))
         if ob.get("harness_error"):
             out.broke("harness", ob.get("harness_error"))
